@@ -1018,14 +1018,16 @@ func mustGet(x any, p []string) any {
 // discard_overflow default through the real cli.readConfig on a file
 func runDiscardDefault(out *hutil.Out) {
 	for name, text := range bases {
-		for _, variant := range []string{"absent", "false", "true"} {
+		os.Setenv("ZV_C17_DISC_F", "false")
+		os.Setenv("ZV_C17_DISC_T", "true")
+		for _, variant := range []string{"absent", "false", "true", "${env:ZV_C17_DISC_F}", "${env:ZV_C17_DISC_T}"} {
 			t := text
 			re := regexp.MustCompile(`(?m)^\s*discard_overflow:.*\n`)
 			t = re.ReplaceAllString(t, "")
 			want := true
 			if variant != "absent" {
 				t = strings.Replace(t, "    gun:\n", "    discard_overflow: "+variant+"\n    gun:\n", -1)
-				want = variant == "true"
+				want = variant == "true" || variant == "${env:ZV_C17_DISC_T}" // a placeholder is a given value, not an absent key
 			}
 			f := filepath.Join(".", "zv_c17_conf.yaml")
 			_ = os.WriteFile(f, []byte(t), 0o644)
